@@ -1,9 +1,9 @@
 """C09 correspondence + property oracle: function lifetimes on a real Home Assistant instance vs the Lean model
 (Model/C09.lean) and vs an independent reference-counting oracle.
 
-The implementation is run in sub-processes with explicit PYTHONHASHSEED values, because the defect C09-F1 depends on
-the iteration order of a Python set of watched names; the order actually used is read back from the subscription
-table and handed to the model (`(define … ((var…)…) …)` lists the names in that order)."""
+The implementation is run in sub-processes with explicit PYTHONHASHSEED values, because the (now fixed) defect C09-F1
+depended on the iteration order of a Python set of watched names; the order actually used is read back from the
+subscription table and handed to the model (`(define … ((var…)…) …)` lists the names in that order)."""
 import json
 import os
 import subprocess
@@ -24,10 +24,10 @@ ASSUMPTIONS = [
 TRUSTED = ["harness/run_C09.py (script generator, observation, reference-count oracle)",
            "harness/ha_env.py + vclock.py (Home Assistant test instance on a virtual clock)"]
 
-# deviation flag of the model (`cont` in Model/C09.lean): 0 = State.notify_del as coded today (`return`), 1 = repaired
-# (`continue`).  After a `fix:` commit for C09-F1 set this to 1 (and mark the finding fixed): C09_start_stop_id and
-# C09_refinement are the theorems that then apply without the one-name-per-entity hypothesis.
-DEL_CONTINUES = 0
+# deviation flag of the model (`cont` in Model/C09.lean).  1 = State.notify_del `continue`s = the code since the `fix:`
+# commit a7dbc5e of /repo (`delContinuesNow`); 0 = the pre-fix loop (`return`, `delContinuesPreFix`, finding C09-F1).
+# The correspondence check certifies the value: against a pre-fix tree impl != model AND the oracle reports the leak.
+DEL_CONTINUES = 1
 CTX = "file.t"
 ENTS = ["pyscript.a", "pyscript.b", "pyscript.c"]
 EVS = ["ev1", "ev2"]
@@ -482,7 +482,6 @@ def deviations(payload):
     gens = {o["gen"]: o for o in payload["ops"] if o["op"] == "define"}
     dup_gens = {g for g, d in gens.items()
                 if any(len({ent_of(n) for n in s}) < len(s) for s in d["states"])}
-    ever_dup_stopped = False
     for idx, (o, x) in enumerate(zip(obs, exp)):
         if o.get("err"):
             devs.append(("raise", f"op {idx}: {o['err']}"))
@@ -501,8 +500,10 @@ def deviations(payload):
         for ent in sorted(set(o["st"]) | set(x["st"])):
             a, b = o["st"].get(ent, 0), x["st"].get(ent, 0)
             if a > b:
-                kind = "leak:state-subscription:duplicate-entity-names" if inactive_dups else "leak:state-subscription"
-                devs.append((kind, f"op {idx}: {ent} has {a} subscribed queues, the referenced functions account for {b}"))
+                hint = " (an unreferenced function watched two names of one entity: notify_del early return?)" \
+                    if inactive_dups else ""
+                devs.append(("leak:state-subscription",
+                             f"op {idx}: {ent} has {a} subscribed queues, the referenced functions account for {b}{hint}"))
             elif a < b:
                 devs.append(("missing-subscription", f"op {idx}: {ent} has {a} subscribed queues, expected {b}"))
         for what in ("ev", "bus"):
@@ -525,7 +526,7 @@ def deviations(payload):
 
 ORDER = ["harness", "raise", "ran-inactive", "active-not-run", "ran-twice", "missing-subscription", "leak:state-subscription",
          "leak:ev-listener", "leak:bus-listener", "missing:ev-listener", "missing:bus-listener", "leak:service",
-         "missing:service", "startup-shutdown", "leak:trigger-task", "leak:state-subscription:duplicate-entity-names"]
+         "missing:service", "startup-shutdown", "leak:trigger-task"]
 
 
 def verdict(c):
